@@ -1,5 +1,6 @@
-(* Flow/ConstantsProofs.v -- proofs for property C13 about the model Flow/Constants.v, against
-   executions of Exec/Sem.v.  Statement vocabulary first (c13_wf, exact_solution), then proofs. *)
+(* Flow/ConstantsProofs.v -- proofs for property C13 about the model Flow/Constants.v (the repaired
+   analysis: entry state = Top for every written scalar), against executions of Exec/Sem.v.
+   Statement vocabulary first (wkeys, c13_wf), then proofs. *)
 From Coq Require Import ZArith List Bool NArith Lia ZifyBool.
 From Falcon Require Import Base.Res IL.Const IL.ConstSpec IL.Expr IL.ExprSpec IL.ConstProofs IL.ExprProofs
      IL.Func IL.Loc IL.LocProofs Exec.Sem Flow.FixedPoint Flow.FpIL Flow.FixedPointProofs
@@ -10,9 +11,11 @@ Notation map := List.map (only parsing).
 
 (* ================================================================== statement vocabulary *)
 
-(* one width per name among the scalars of the function; sources of assignments well sorted *)
+(* the scalars the function writes = the keys of every state of the analysis *)
+Definition wkeys (f : func) : list scalar := map fst (entry_seed f).
+(* one width per name among the written scalars; sources of assignments well sorted, of the destination's width *)
 Definition names_ok (f : func) : bool :=
-  let u := all_scalars f in
+  let u := wkeys f in
   forallb (fun s => forallb (fun t => implb (skey_eqb (skey_of s) (skey_of t)) (scalar_eqb s t)) u) u.
 Definition srcs_wf (f : func) : bool :=
   forallb (fun b => forallb (fun i => match i_op i with
@@ -376,56 +379,89 @@ Proof. intros Ha Hb. rewrite cm_join_fold. apply jfold_cgood; assumption. Qed.
 
 Lemma ss_mem_in s x : ss_mem s x = true <-> In s x.
 Proof. unfold ss_mem. apply existsb_eqb_in. Qed.
-Lemma ss_add_in s x y : In y (ss_add s x) <-> y = s \/ In y x.
+
+(* ================================================================== goodness of states *)
+Definition set_tops (ws : list scalar) (m : cmap) : cmap := fold_left (fun m w => cm_set m w CTop) ws m.
+
+Lemma set_tops_keys ws : forall m x, In x (keys (set_tops ws m)) <-> In x ws \/ In x (keys m).
 Proof.
-  unfold ss_add. destruct (ss_mem s x) eqn:E.
-  - apply ss_mem_in in E. split; [tauto|]. intros [->|H]; assumption.
-  - cbn [In]. split; intros [H|H]; auto.
-Qed.
-Lemma fold_add_in xs : forall acc y, In y (fold_left (fun a s => ss_add s a) xs acc) <-> In y xs \/ In y acc.
-Proof.
-  induction xs as [|x t IH]; intros acc y; cbn [fold_left In]; [tauto|].
-  rewrite IH, ss_add_in. split.
+  unfold set_tops. induction ws as [|w t IH]; intros m x; cbn [fold_left In]; [tauto|].
+  rewrite IH, keys_set_in. split.
   - intros [H|[H|H]]; [left; right; exact H|left; left; symmetry; exact H|right; exact H].
   - intros [[H|H]|H]; [right; left; symmetry; exact H|left; exact H|right; right; exact H].
 Qed.
-Lemma all_scalars_in f l s : In l (locations f) ->
-  In s (loc_reads f l ++ loc_writes f l ++ loc_declared f l) -> In s (all_scalars f).
+Lemma fold_inv {A} (P : cmap -> Prop) (h : cmap -> A -> cmap) l :
+  (forall m a, P m -> P (h m a)) -> forall m, P m -> P (fold_left h l m).
+Proof. intros H. induction l as [|a t IH]; intros m Hm; cbn [fold_left]; [exact Hm|]. apply IH. apply H. exact Hm. Qed.
+Lemma fold_keys_gen {A} (h : cmap -> A -> cmap) (G : A -> scalar -> Prop) :
+  (forall m a x, In x (keys (h m a)) <-> G a x \/ In x (keys m)) ->
+  forall l m x, In x (keys (fold_left h l m)) <-> (exists a, In a l /\ G a x) \/ In x (keys m).
 Proof.
-  unfold all_scalars. generalize (@nil scalar) as acc. induction (locations f) as [|l0 t IH]; intros acc Hl Hs; [destruct Hl|].
-  cbn [fold_left]. destruct Hl as [->|Hl]; [|apply IH; assumption].
-  assert (G : forall ls acc0, In s acc0 ->
-    In s (fold_left (fun acc1 l1 => fold_left (fun a s0 => ss_add s0 a) (loc_reads f l1 ++ loc_writes f l1 ++ loc_declared f l1) acc1) ls acc0)).
-  { induction ls as [|l1 ls IHls]; intros acc0 H0; cbn [fold_left]; [exact H0|]. apply IHls. apply fold_add_in. tauto. }
-  apply G. apply fold_add_in. tauto.
+  intros H. induction l as [|a t IH]; intros m x; cbn [fold_left].
+  - split; [tauto|]. intros [(a & [] & _)|H0]; exact H0.
+  - rewrite IH, H. split.
+    + intros [(a' & Hin & Hg)|[Hg|Hk]]; [left; exists a'; split; [right; exact Hin|exact Hg]|left; exists a; split; [left; reflexivity|exact Hg]|right; exact Hk].
+    + intros [(a' & [<-|Hin] & Hg)|Hk]; [right; left; exact Hg|left; exists a'; auto|right; right; exact Hk].
+Qed.
+
+(* which scalars are keys of the entry state *)
+Lemma wkeys_spec f x : In x (wkeys f) <->
+  exists b i, In b (f_blocks f) /\ In i (b_instrs b) /\ In x (written_of_op (i_op i)).
+Proof.
+  unfold wkeys, entry_seed. fold (keys (fold_left (fun m b => fold_left (fun m i => fold_left (fun m s => cm_set m s CTop) (written_of_op (i_op i)) m) (b_instrs b) m) (f_blocks f) [])).
+  rewrite (fold_keys_gen (fun m b => fold_left (fun m i => fold_left (fun m s => cm_set m s CTop) (written_of_op (i_op i)) m) (b_instrs b) m)
+             (fun b x => exists i, In i (b_instrs b) /\ In x (written_of_op (i_op i)))).
+  - cbn [keys map In]. split; [intros [(b & Hb & i & Hi & Hx)|[]]; eauto|intros (b & i & Hb & Hi & Hx); left; eauto].
+  - intros m b y.
+    apply (fold_keys_gen (fun m i => fold_left (fun m s => cm_set m s CTop) (written_of_op (i_op i)) m)
+             (fun i x => In x (written_of_op (i_op i)))).
+    intros m0 i z. apply (set_tops_keys (written_of_op (i_op i)) m0 z).
 Qed.
 
 Section Good.
   Variable f : func.
-  Let U := all_scalars f.
 
-  Definition good (A : cmap) : Prop := NoDup (keys A) /\ (forall k, In k (keys A) -> In k U) /\ cgood A.
+  Definition good (A : cmap) : Prop :=
+    NoDup (keys A) /\ (forall k, In k (keys A) <-> In k (wkeys f)) /\ cgood A.
 
-  Lemma good_nil : good [].
-  Proof. split; [constructor|split; [intros k []|constructor]]. Qed.
-
-  Lemma good_join a b : good a -> good b -> good (cm_join a b).
-  Proof.
-    intros (A1 & A2 & A3) (B1 & B2 & B3). split; [apply cm_join_nodup; exact A1|split].
-    - intros k Hk. destruct (cm_join_keys _ _ _ Hk); auto.
-    - apply cgood_join; assumption.
-  Qed.
-
-  Lemma good_set A k v : good A -> In k U ->
+  Lemma good_set A k v : good A -> In k (wkeys f) ->
     match v with CConst c => cbits c = sbits k /\ wf (EConst c) | _ => True end -> good (cm_set A k v).
   Proof.
     intros (A1 & A2 & A3) Hk Hv. split; [apply nodup_set; exact A1|split].
-    - intros x Hx. apply keys_set_in in Hx as [->|Hx]; auto.
+    - intros x. rewrite keys_set_in, A2. split; [intros [->|H]; assumption|tauto].
     - apply cgood_set; assumption.
   Qed.
   Lemma good_top A : good A -> good (cm_top A).
   Proof.
     intros (A1 & A2 & A3). split; [rewrite keys_top; exact A1|split; [rewrite keys_top; exact A2|apply cgood_top]].
+  Qed.
+  Lemma good_join a b : good a -> good b -> good (cm_join a b).
+  Proof.
+    intros (A1 & A2 & A3) (B1 & B2 & B3). split; [apply cm_join_nodup; exact A1|split].
+    - intros k. split.
+      + intros Hk. destruct (cm_join_keys _ _ _ Hk) as [H|H]; [apply A2|apply B2]; exact H.
+      + intros Hk. apply A2 in Hk. destruct (cm_get a k) as [x|] eqn:E; [|apply cm_get_none in E; contradiction].
+        destruct (above_join_left a a b (above_refl a) k x E) as [H|H]; apply cm_get_in in H; unfold keys; apply in_map_iff; eexists; split; [|exact H| |exact H]; reflexivity.
+    - apply cgood_join; assumption.
+  Qed.
+
+  (* the entry state: keys = wkeys by definition, all values Top *)
+  Definition all_top (A : cmap) : Prop := forall k v, cm_get A k = Some v -> v = CTop.
+  Lemma seed_facts : NoDup (keys (entry_seed f)) /\ cgood (entry_seed f) /\ all_top (entry_seed f).
+  Proof.
+    unfold entry_seed.
+    apply (fold_inv (fun m => NoDup (keys m) /\ cgood m /\ all_top m)); [|split; [constructor|split; [constructor|intros k v H; discriminate H]]].
+    intros m b Hm. apply (fold_inv (fun m => NoDup (keys m) /\ cgood m /\ all_top m)); [|exact Hm].
+    intros m0 i Hm0. apply (fold_inv (fun m => NoDup (keys m) /\ cgood m /\ all_top m)); [|exact Hm0].
+    intros m1 s (N1 & N2 & N3). split; [apply nodup_set; exact N1|split; [apply cgood_set; [exact N2|exact I]|]].
+    intros k v. rewrite cm_get_set. destruct (scalar_eqb s k); [intros [= <-]; reflexivity|apply N3].
+  Qed.
+  Lemma good_seed : good (entry_seed f).
+  Proof. destruct seed_facts as (A & B & _). split; [exact A|split; [intros k; reflexivity|exact B]]. Qed.
+
+  Lemma written_in_wkeys l i x : loc_instruction f l = Some i -> In x (written_of_op (i_op i)) -> In x (wkeys f).
+  Proof.
+    intros Hi Hx. destruct (loc_instruction_in f l i Hi) as (b & Hb & Hin). apply wkeys_spec. eauto.
   Qed.
 
   Hypothesis Hsrc : srcs_wf f = true.
@@ -439,31 +475,37 @@ Section Good.
     apply andb_prop in Hsrc as [H1 H2]. split; [apply wfb_wf; exact H1|lia].
   Qed.
 
-  (* every state produced by the transfer function from a good state is good *)
-  Lemma good_trans l st a : In l (locations f) -> (forall s, st = Some s -> good s) -> c_trans f l st = Ok a -> good a.
+  (* the body of the transfer function maps good states to good states *)
+  Lemma good_body l s a : good s -> c_body f l s = Ok a -> good a.
   Proof.
-    intros Hl Hst. unfold c_trans.
-    set (s := match st with Some s => s | None => [] end).
-    assert (Hs : good s) by (subst s; destruct st; [apply Hst; reflexivity|apply good_nil]).
-    clearbody s. destruct l as [bi ii|h t|bi]; try (intros [= <-]; exact Hs).
+    intros Hs. unfold c_body. destruct l as [bi ii|h t|bi]; try (intros [= <-]; exact Hs).
     destruct (loc_instruction f (LInstr bi ii)) as [i|] eqn:Hi; [|discriminate].
-    assert (HU : forall x, In x (loc_writes f (LInstr bi ii) ++ loc_declared f (LInstr bi ii)) -> In x U).
-    { intros x Hx. apply (all_scalars_in f (LInstr bi ii)); [exact Hl|]. apply in_or_app. right. exact Hx. }
-    unfold loc_writes, loc_declared in HU. rewrite Hi in HU.
-    destruct (i_op i) as [dst src|idx src|dst idx|tgt|intr|ph] eqn:Ho.
+    pose proof (fun x => written_in_wkeys (LInstr bi ii) i x Hi) as HW. unfold written_of_op in HW.
+    destruct (i_op i) as [dst src|idx src|dst idx|tgt|intr|ph] eqn:Ho; cbn [op_scalars_written] in HW.
     - destruct (srcs_wf_at _ _ _ _ Hi Ho) as [Wsrc Wb].
       destruct (cm_eval s src) as [[c|]| |] eqn:Ee; try discriminate; cbn [bind]; intros [= <-].
-      + apply good_set; [exact Hs|apply HU; left; reflexivity|].
+      + apply good_set; [exact Hs|apply HW; left; reflexivity|].
         destruct (cm_eval_good s src c Wsrc (proj2 (proj2 Hs)) Ee) as [G1 G2]. split; [congruence|exact G2].
-      + apply good_set; [exact Hs|apply HU; left; reflexivity|exact I].
+      + apply good_set; [exact Hs|apply HW; left; reflexivity|exact I].
     - intros [= <-]. exact Hs.
-    - intros [= <-]. apply good_set; [exact Hs|apply HU; left; reflexivity|exact I].
+    - intros [= <-]. apply good_set; [exact Hs|apply HW; left; reflexivity|exact I].
     - intros [= <-]. apply good_top. exact Hs.
     - destruct (intr_scalars_written intr) as [ws|]; intros [= <-]; [|apply good_top; exact Hs].
-      cbn [app] in HU. revert s Hs. induction ws as [|w ws IH]; intros s Hs; cbn [fold_left]; [exact Hs|].
-      apply IH; [intros x Hx; apply HU; right; exact Hx|]. apply good_set; [exact Hs|apply HU; left; reflexivity|exact I].
+      revert s Hs. induction ws as [|w ws IH]; intros s Hs; cbn [fold_left]; [exact Hs|].
+      apply IH; [intros x Hx; apply HW; right; exact Hx|]. apply good_set; [exact Hs|apply HW; left; reflexivity|exact I].
     - intros [= <-]. exact Hs.
   Qed.
+
+  (* the state the transfer function starts from *)
+  Definition pick (entry l : floc) (st : option cmap) : cmap :=
+    match st with Some s => if floc_eqb l entry then entry_seed f else s | None => entry_seed f end.
+  Lemma c_trans_pick entry l st : from_function f = Some (Ok entry) -> c_trans f l st = c_body f l (pick entry l st).
+  Proof. intros H. unfold c_trans. rewrite H. reflexivity. Qed.
+  Lemma good_pick entry l st : (forall s, st = Some s -> good s) -> good (pick entry l st).
+  Proof. intros H. unfold pick. destruct st as [s|]; [destruct (floc_eqb l entry); [apply good_seed|apply H; reflexivity]|apply good_seed]. Qed.
+  Lemma good_trans entry l st a : from_function f = Some (Ok entry) ->
+    (forall s, st = Some s -> good s) -> c_trans f l st = Ok a -> good a.
+  Proof. intros He Hst. rewrite (c_trans_pick entry l st He). apply good_body. apply good_pick. exact Hst. Qed.
 End Good.
 
 (* ================================================================== one step of an execution *)
@@ -502,118 +544,81 @@ Qed.
 Definition asg_after (asg : list skey) (ev : event) : list skey :=
   match ev with EvAssign k _ | EvLoad k _ _ => k :: asg | _ => asg end.
 
+Lemma scalar_eqb_false a b : a <> b -> scalar_eqb a b = false.
+Proof. intros H. destruct (scalar_eqb a b) eqn:E; [|reflexivity]. apply scalar_eqb_eq in E. contradiction. Qed.
+Lemma skey_eqb_false a b : a <> b -> skey_eqb a b = false.
+Proof. intros H. destruct (skey_eqb a b) eqn:E; [|reflexivity]. apply skey_eqb_eq in E. contradiction. Qed.
+Lemma get_in_keys A s v : cm_get A s = Some v -> In s (keys A).
+Proof. intros H. apply cm_get_in in H. unfold keys. apply in_map_iff. exists (s, v). auto. Qed.
+
+(* ================================================================== abstract states against concrete environments *)
+(* every reported constant is the concrete value (unconditionally) *)
+Definition usound (A : cmap) (en : senv) : Prop :=
+  forall s c, cm_get A s = Some (CConst c) -> env_get en (skey_of s) = Some c.
+
 Section Exec.
   Variable f : func.
-  Let U := all_scalars f.
   Hypothesis Hnames : names_ok f = true.
   Hypothesis Hsrc : srcs_wf f = true.
 
-  Lemma names_inj s t : In s U -> In t U -> skey_of s = skey_of t -> s = t.
+  Lemma names_inj s t : In s (wkeys f) -> In t (wkeys f) -> skey_of s = skey_of t -> s = t.
   Proof.
-    intros Hs Ht E. unfold names_ok in Hnames. fold U in Hnames.
+    intros Hs Ht E. unfold names_ok in Hnames.
     rewrite forallb_forall in Hnames. specialize (Hnames s Hs). rewrite forallb_forall in Hnames. specialize (Hnames t Ht).
     rewrite E, skey_eqb_refl in Hnames. cbn [implb] in Hnames. apply scalar_eqb_eq. exact Hnames.
   Qed.
 
-  (* the map A describes the environment en of an execution in which the keys asg have been assigned *)
-  Definition desc (A : cmap) (en : senv) (asg : list skey) : Prop :=
-    (forall s, In s U -> key_mem (skey_of s) asg = true -> cm_get A s <> None) /\
-    (forall s c, cm_get A s = Some (CConst c) -> key_mem (skey_of s) asg = true -> env_get en (skey_of s) = Some c).
+  Lemma usound_seed en : usound (entry_seed f) en.
+  Proof. intros s c H. destruct (seed_facts f) as (_ & _ & T). specialize (T s _ H). discriminate T. Qed.
 
-  Lemma desc_nil en : desc [] en [].
-  Proof. split; [intros s _ H; discriminate H|intros s c H; discriminate H]. Qed.
+  Lemma usound_ext A B en : (forall k, cm_get A k = cm_get B k) -> usound A en -> usound B en.
+  Proof. intros E H s c Hg. apply H. rewrite E. exact Hg. Qed.
 
-  Lemma desc_above O A en asg : (forall k, In k (keys A) -> In k U) -> desc O en asg -> above O A -> desc A en asg.
+  (* a join that includes O describes every environment O describes (O carries every key) *)
+  Lemma usound_above O A en : good f O -> (forall k, In k (keys A) -> In k (wkeys f)) ->
+    usound O en -> above O A -> usound A en.
   Proof.
-    intros HA [D1 D2] Hab. split.
-    - intros s Hs Hk. destruct (cm_get O s) as [x|] eqn:Eo; [|exfalso; exact (D1 s Hs Hk Eo)].
-      destruct (Hab s x Eo) as [H|H]; rewrite H; discriminate.
-    - intros s c Hg Hk.
-      assert (Hs : In s U). { apply HA. apply cm_get_in in Hg. unfold keys. apply in_map_iff. exists (s, CConst c). auto. }
-      destruct (cm_get O s) as [x|] eqn:Eo; [|exfalso; exact (D1 s Hs Hk Eo)].
-      destruct (Hab s x Eo) as [H|H]; rewrite H in Hg; [|discriminate]. injection Hg as ->. exact (D2 s c Eo Hk).
+    intros (_ & GO & _) HA HO Hab s c Hg.
+    assert (Hs : In s (keys O)) by (apply GO; apply HA; eapply get_in_keys; exact Hg).
+    destruct (cm_get O s) as [x|] eqn:Eo; [|apply cm_get_none in Eo; contradiction].
+    destruct (Hab s x Eo) as [H|H]; rewrite H in Hg; [|discriminate]. injection Hg as ->. exact (HO s c Eo).
   Qed.
-End Exec.
-
-Section Exec2.
-  Variable f : func.
-  Let U := all_scalars f.
-  Hypothesis Hnames : names_ok f = true.
-  Hypothesis Hsrc : srcs_wf f = true.
-
-  Lemma desc_asg_nil A en : desc f A en [].
-  Proof. split; [intros s _ H; discriminate H|intros s c _ H; discriminate H]. Qed.
-
-  Lemma desc_ext A B en asg : (forall k, cm_get A k = cm_get B k) -> desc f A en asg -> desc f B en asg.
-  Proof. intros E [D1 D2]. split; [intros s Hs Hk; rewrite <- E; auto|intros s c Hg Hk; rewrite <- E in Hg; auto]. Qed.
-
-  Lemma scalar_eqb_false a b : a <> b -> scalar_eqb a b = false.
-  Proof. intros H. destruct (scalar_eqb a b) eqn:E; [|reflexivity]. apply scalar_eqb_eq in E. contradiction. Qed.
-  Lemma skey_eqb_false a b : a <> b -> skey_eqb a b = false.
-  Proof. intros H. destruct (skey_eqb a b) eqn:E; [|reflexivity]. apply skey_eqb_eq in E. contradiction. Qed.
-
-  Lemma get_in_keys A s v : cm_get A s = Some v -> In s (keys A).
-  Proof. intros H. apply cm_get_in in H. unfold keys. apply in_map_iff. exists (s, v). auto. Qed.
 
   (* assigning dst (abstractly cv, concretely v) *)
-  Lemma desc_set s en asg dst cv v : good f s -> desc f s en asg -> In dst U ->
+  Lemma usound_set s en dst cv v : good f s -> usound s en -> In dst (wkeys f) ->
     (forall c, cv = CConst c -> v = c) ->
-    desc f (cm_set s dst cv) (env_set en (skey_of dst) v) (skey_of dst :: asg).
+    usound (cm_set s dst cv) (env_set en (skey_of dst) v).
   Proof.
-    intros (G1 & G2 & G3) [D1 D2] Hd Hv. split.
-    - intros t Ht Hk. rewrite cm_get_set. destruct (scalar_eqb dst t) eqn:E; [discriminate|].
-      rewrite key_mem_cons in Hk. apply orb_prop in Hk as [Hk|Hk]; [|exact (D1 t Ht Hk)].
-      apply skey_eqb_eq in Hk. rewrite (names_inj f Hnames t dst Ht Hd Hk), scalar_eqb_refl in E. discriminate.
-    - intros t c Hg Hk. rewrite cm_get_set in Hg. rewrite SPOProofs.env_get_set.
-      destruct (scalar_eqb dst t) eqn:E.
-      + apply scalar_eqb_eq in E. subst t. rewrite skey_eqb_refl. injection Hg as ->. f_equal. apply Hv. reflexivity.
-      + assert (Ht : In t U) by (apply G2; eapply get_in_keys; exact Hg).
-        assert (Hne : skey_of dst <> skey_of t).
-        { intros Ek. rewrite (names_inj f Hnames dst t Hd Ht Ek), scalar_eqb_refl in E. discriminate. }
-        rewrite (skey_eqb_false _ _ Hne). apply D2; [exact Hg|].
-        rewrite key_mem_cons in Hk. rewrite (skey_eqb_false (skey_of t) (skey_of dst)) in Hk by congruence. exact Hk.
+    intros (G1 & G2 & G3) HS Hd Hv t c Hg. rewrite cm_get_set in Hg. rewrite SPOProofs.env_get_set.
+    destruct (scalar_eqb dst t) eqn:E.
+    - apply scalar_eqb_eq in E. subst t. rewrite skey_eqb_refl. injection Hg as ->. f_equal. apply Hv. reflexivity.
+    - assert (Ht : In t (wkeys f)) by (apply G2; eapply get_in_keys; exact Hg).
+      assert (Hne : skey_of dst <> skey_of t).
+      { intros Ek. rewrite (names_inj dst t Hd Ht Ek), scalar_eqb_refl in E. discriminate. }
+      rewrite (skey_eqb_false _ _ Hne). apply HS. exact Hg.
   Qed.
-
-  Lemma desc_top s en asg : desc f s en asg -> desc f (cm_top s) en asg.
-  Proof.
-    intros [D1 D2]. split.
-    - intros t Ht Hk. rewrite cm_get_top. specialize (D1 t Ht Hk). destruct (cm_get s t); [discriminate|contradiction].
-    - intros t c Hg. rewrite cm_get_top in Hg. destruct (cm_get s t); discriminate.
-  Qed.
-
-  Lemma desc_mem s st m' asg : desc f s (st_env st) asg -> desc f s (st_env (mkst (st_env st) m')) asg.
-  Proof. auto. Qed.
-
-  Lemma c_trans_norm l sto : c_trans f l sto = c_trans f l (Some (match sto with Some s => s | None => [] end)).
-  Proof. destruct sto; reflexivity. Qed.
+  Lemma usound_top s en : usound (cm_top s) en.
+  Proof. intros t c Hg. rewrite cm_get_top in Hg. destruct (cm_get s t); discriminate. Qed.
 
   (* executing the instruction at l from a described state *)
-  Lemma trans_desc l i sto st st' ev asg new :
-    In l (locations f) -> loc_instruction f l = Some i ->
-    forall s, s = match sto with Some s => s | None => [] end ->
-    good f s -> desc f s (st_env st) asg ->
-    (forall x, In x (loc_reads f l) -> key_mem (skey_of x) asg = true) ->
-    exec_op st (i_op i) = Ok (st', ev) -> c_trans f l sto = Ok new ->
-    desc f new (st_env st') (asg_after asg ev).
+  Lemma body_usound l i s st st' ev new :
+    loc_instruction f l = Some i -> good f s -> usound s (st_env st) ->
+    exec_op st (i_op i) = Ok (st', ev) -> c_body f l s = Ok new -> usound new (st_env st').
   Proof.
-    intros Hl Hi s Hs Hg Hd Hreads Hex Ht.
-    assert (HU : forall x, In x (loc_writes f l) -> In x U).
-    { intros x Hx. apply (all_scalars_in f l); [exact Hl|]. apply in_or_app. right. apply in_or_app. left. exact Hx. }
+    intros Hi Hg Hd Hex Ht.
+    pose proof (fun x => written_in_wkeys f l i x Hi) as HW. unfold written_of_op in HW.
     destruct l as [bi ii|h t|bi]; try discriminate Hi.
-    assert (Ht' : c_trans f (LInstr bi ii) (Some s) = Ok new) by (subst s; rewrite c_trans_norm in Ht; exact Ht).
-    clear Ht Hs. rename Ht' into Ht.
-    cbv beta iota zeta delta [c_trans] in Ht. rewrite Hi in Ht.
-    unfold loc_reads in Hreads. rewrite Hi in Hreads. unfold loc_writes in HU. rewrite Hi in HU.
-    destruct (i_op i) as [dst src|idx src|dst idx|tgt|intr|ph] eqn:Ho; cbn [exec_op op_scalars_read] in *.
+    unfold c_body in Ht. rewrite Hi in Ht.
+    destruct (i_op i) as [dst src|idx src|dst idx|tgt|intr|ph] eqn:Ho; cbn [exec_op op_scalars_written] in *.
     - (* Assign *)
       destruct (srcs_wf_at f Hsrc _ _ _ _ Hi Ho) as [Wsrc _].
       destruct (den (st_env st) src) as [v| |] eqn:Ed; try discriminate. cbn [bind] in Hex. injection Hex as <- <-.
       destruct (cm_eval s src) as [r| |] eqn:Ee; try discriminate. cbn [bind] in Ht. injection Ht as <-.
-      cbn [asg_after st_env]. apply desc_set; [exact Hg|exact Hd|apply HU; left; reflexivity|].
+      cbn [st_env]. apply usound_set; [exact Hg|exact Hd|apply HW; left; reflexivity|].
       intros c Hc. destruct r as [c'|]; [|discriminate]. injection Hc as ->.
       assert (Hden : den (st_env st) src = Ok c).
       { apply (cm_eval_sound (st_env st) s src c Wsrc (proj2 (proj2 Hg))); [|exact Ee].
-        intros x cx Hx Hgx. apply (proj2 Hd x cx Hgx). apply Hreads. exact Hx. }
+        intros x cx _ Hgx. exact (Hd x cx Hgx). }
       congruence.
     - (* Store *)
       destruct (den (st_env st) src) as [v| |]; try discriminate. cbn [bind] in Hex.
@@ -625,79 +630,16 @@ Section Exec2.
       destruct (den (st_env st) idx) as [ix| |]; try discriminate. cbn [bind] in Hex.
       destruct (addr_of ix) as [a| |]; try discriminate. cbn [bind] in Hex.
       destruct (mem_load (st_mem st) a (sbits dst)) as [v| |]; try discriminate. cbn [bind] in Hex.
-      injection Hex as <- <-. injection Ht as <-. cbn [asg_after st_env].
-      apply desc_set; [exact Hg|exact Hd|apply HU; left; reflexivity|discriminate].
+      injection Hex as <- <-. injection Ht as <-. cbn [st_env].
+      apply usound_set; [exact Hg|exact Hd|apply HW; left; reflexivity|discriminate].
     - (* Branch *)
       destruct (den (st_env st) tgt) as [tv| |]; try discriminate. cbn [bind] in Hex.
       destruct (addr_of tv) as [a| |]; try discriminate. cbn [bind] in Hex.
-      injection Hex as <- <-. injection Ht as <-. apply desc_top. exact Hd.
+      injection Hex as <- <-. injection Ht as <-. apply usound_top.
     - discriminate.
     - injection Hex as <- <-. injection Ht as <-. exact Hd.
   Qed.
-End Exec2.
-
-(* ================================================================== definite assignment along an execution *)
-Section DA.
-  Variable f : func.
-  Variables (entry : floc) (dm : da_map).
-  Hypothesis Hentry : entry_loc f = Some entry.
-  Hypothesis Hsol : da_solution f = Some dm.
-  Hypothesis Hda : def_assigned f = true.
-
-  Lemma da_facts :
-    da_get dm entry = [] /\
-    (forall l, In l (locations f) -> l <> entry -> forall p, In p (il_pred f l) ->
-       forall x, In x (da_get dm l) -> In x (da_get dm p) \/ In x (loc_writes f p)) /\
-    (forall l, In l (locations f) -> forall x, In x (loc_reads f l) -> In x (da_get dm l)).
-  Proof.
-    unfold def_assigned in Hda. rewrite Hentry, Hsol in Hda. apply andb_prop in Hda as [Hp Hr].
-    unfold da_post in Hp. apply andb_prop in Hp as [Hp1 Hp2]. split; [|split].
-    - destruct (da_get dm entry); [reflexivity|discriminate].
-    - intros l Hl Hne p Hpred x Hx. rewrite forallb_forall in Hp2. specialize (Hp2 l Hl).
-      destruct (floc_eqb l entry) eqn:E; [apply floc_eqb_eq in E; contradiction|].
-      unfold il_pred in Hpred. destruct (backward f l) as [ps| |]; [|destruct Hpred ..].
-      rewrite forallb_forall in Hp2. specialize (Hp2 p Hpred). unfold ss_subset in Hp2.
-      rewrite forallb_forall in Hp2. specialize (Hp2 x Hx). apply ss_mem_in in Hp2.
-      unfold da_out in Hp2. apply fold_add_in in Hp2. tauto.
-    - intros l Hl x Hx. rewrite forallb_forall in Hr. specialize (Hr l Hl). unfold ss_subset in Hr.
-      rewrite forallb_forall in Hr. apply ss_mem_in. exact (Hr x Hx).
-  Qed.
-
-  Definition da_inv (l : floc) (asg : list skey) : Prop :=
-    forall x, In x (da_get dm l) -> key_mem (skey_of x) asg = true.
-
-  Lemma key_mem_after k asg ev : key_mem k asg = true -> key_mem k (asg_after asg ev) = true.
-  Proof. intros H. destruct ev; cbn [asg_after]; try exact H; rewrite key_mem_cons, H; apply orb_true_r. Qed.
-
-  Lemma exec_writes st o st' ev x : exec_op st o = Ok (st', ev) ->
-    In x (match o with OAssign dst _ | OLoad dst _ => [dst] | _ => [] end) ->
-    key_mem (skey_of x) (asg_after [] ev) = true.
-  Proof.
-    destruct o as [dst src|idx src|dst idx|tgt|intr|ph]; cbn [exec_op].
-    2, 4, 5, 6: intros _ Hf; destruct Hf.
-    - destruct (den (st_env st) src) as [v| |]; try discriminate. cbn [bind]. intros [= _ <-] [<-|[]].
-      cbn [asg_after]. rewrite key_mem_cons, skey_eqb_refl. reflexivity.
-    - destruct (den (st_env st) idx) as [ix| |]; try discriminate. cbn [bind].
-      destruct (addr_of ix) as [a| |]; try discriminate. cbn [bind].
-      destruct (mem_load (st_mem st) a (sbits dst)) as [v| |]; try discriminate. cbn [bind]. intros [= _ <-] [<-|[]].
-      cbn [asg_after]. rewrite key_mem_cons, skey_eqb_refl. reflexivity.
-  Qed.
-
-  Lemma asg_after_app k asg ev : key_mem k (asg_after [] ev) = true -> key_mem k (asg_after asg ev) = true.
-  Proof. destruct ev; cbn [asg_after]; try discriminate; rewrite !key_mem_cons; intros H; apply orb_prop in H as [H|H]; try discriminate H; rewrite H; reflexivity. Qed.
-
-  Lemma da_inv_step l st l' st' ev asg : In l' (locations f) -> In l (il_pred f l') ->
-    da_inv l asg -> sem_step f l st = Sem.Next l' st' ev -> da_inv l' (asg_after asg ev).
-  Proof.
-    intros Hl' Hp Hinv Hs x Hx. destruct da_facts as (F1 & F2 & _).
-    destruct (floc_eqb l' entry) eqn:E.
-    - apply floc_eqb_eq in E. subst l'. rewrite F1 in Hx. destruct Hx.
-    - assert (Hne : l' <> entry) by (intros ->; assert (floc_eqb entry entry = true) by (apply floc_eqb_eq; reflexivity); congruence).
-      destruct (F2 l' Hl' Hne l Hp x Hx) as [H|H]; [apply key_mem_after; exact (Hinv x H)|].
-      unfold loc_writes in H. destruct (sem_step_next_inv f l st l' st' ev Hs) as [(i & Hi & Hex)|(Hi & _ & _)]; rewrite Hi in H; [|destruct H].
-      apply asg_after_app. eapply exec_writes; [exact Hex|exact H].
-  Qed.
-End DA.
+End Exec.
 
 (* ================================================================== executions against an exact solution *)
 Lemma cmap_eqb_get a b : cmap_eqb a b = true -> forall k, cm_get a k = cm_get b k.
@@ -717,12 +659,16 @@ Proof.
   destruct (floc_eqb k l) eqn:E; [|right; auto]. apply floc_eqb_eq in E. intros [= <-]. left. congruence.
 Qed.
 
+
+Lemma from_function_of f e eb : g_entry (f_cfg f) = Some e -> find_block (f_blocks f) e = Some eb ->
+  from_function f = Some (Ok (block_first_loc eb)).
+Proof. intros He Hb. unfold from_function, f_block, cfg_block. rewrite He. fold (f_blocks f). rewrite Hb. reflexivity. Qed.
+
+(* ================================================================== executions against an exact solution *)
 Section Sound.
   Variable f : func.
-  Let U := all_scalars f.
   Hypothesis Hinv : cfg_inv (f_cfg f) = true.
   Hypothesis Hwf : c13_wf f = true.
-  Hypothesis Hda : def_assigned f = true.
   Variables (e : Z) (eb : block).
   Hypothesis He : g_entry (f_cfg f) = Some e.
   Hypothesis Hb : find_block (f_blocks f) e = Some eb.
@@ -736,9 +682,7 @@ Section Sound.
   Lemma Hsrc : srcs_wf f = true. Proof. unfold c13_wf in Hwf. apply andb_prop in Hwf. tauto. Qed.
   Lemma Hentry : entry_loc f = Some entry. Proof. unfold entry_loc. rewrite He, Hb. reflexivity. Qed.
   Lemma Heb : In eb (f_blocks f). Proof. exact (proj1 (find_block_some _ _ _ Hb)). Qed.
-
-  Lemma reach_loc l : reachL f entry l -> In l (locations f).
-  Proof. intros H. apply (locations_valid f l Hinv). exact (reach_valid f Hinv eb Heb l H). Qed.
+  Lemma Hff : from_function f = Some (Ok entry). Proof. exact (from_function_of f e eb He Hb). Qed.
 
   Lemma exact_eqn l s : clk m l = Some s ->
     exists sto new, cjn m (il_pred f l) = Ok sto /\ c_trans f l sto = Ok new /\ forall k, cm_get new k = cm_get s k.
@@ -758,59 +702,50 @@ Section Sound.
     intros l s Hl. exact (Hgood l s Hl).
   Qed.
 
-  Variable dm : da_map.
-  Hypothesis Hsol : da_solution f = Some dm.
-
-  (* the state before executing l is described by the state of an executed predecessor *)
+  (* the state before executing l: the very first visit of the entry, or a state described by the
+     out-state of an executed predecessor *)
   Definition pre (l : floc) (st : sstate) (asg : list skey) : Prop :=
-    reachL f entry l /\ da_inv dm l asg /\
-    (asg = [] \/ exists p O, In p (il_pred f l) /\ clk m p = Some O /\ desc f O (st_env st) asg).
+    reachL f entry l /\
+    ((l = entry /\ asg = []) \/ exists p O, In p (il_pred f l) /\ clk m p = Some O /\ usound O (st_env st)).
 
-  (* any join that includes the executed predecessor's state describes the state *)
-  Lemma pre_desc l st asg A : pre l st asg -> (forall k, In k (keys A) -> In k U) ->
-    (forall p O, In p (il_pred f l) -> clk m p = Some O -> above O A) -> desc f A (st_env st) asg.
+  (* the state the transfer function starts from at l describes st *)
+  Lemma in_state_usound l st asg sto : pre l st asg -> cjn m (il_pred f l) = Ok sto ->
+    good f (pick f entry l sto) /\ usound (pick f entry l sto) (st_env st).
   Proof.
-    intros (_ & _ & [-> |(p & O & Hp & Hl & Hd)]) HA Hab; [apply desc_asg_nil|].
-    eapply desc_above; [exact HA|exact Hd|exact (Hab p O Hp Hl)].
-  Qed.
-
-  Lemma in_state_desc l st asg sto : pre l st asg -> cjn m (il_pred f l) = Ok sto ->
-    let s := match sto with Some s => s | None => [] end in good f s /\ desc f s (st_env st) asg.
-  Proof.
-    intros Hpre Hj. cbn zeta. destruct Hpre as (Hr & Hi & [-> |(p & O & Hp & Hl & Hd)]).
-    - split; [|apply desc_asg_nil]. destruct sto as [s|]; [eapply cjn_good; [exact Hj|reflexivity]|apply good_nil].
-    - destruct (cjn_above m (il_pred f l) p O Hp Hl (proj1 (Hgood p O Hl))) as (J & HJ & Hab).
-      rewrite HJ in Hj. injection Hj as <-. pose proof (cjn_good _ _ HJ J eq_refl) as GJ. split; [exact GJ|].
-      eapply desc_above; [exact (proj1 (proj2 GJ))|exact Hd|exact Hab].
+    intros (Hr & Hc) Hj. split; [apply good_pick; intros s Hs; eapply cjn_good; eassumption|].
+    destruct (floc_eqb l entry) eqn:E.
+    - unfold pick. rewrite E. destruct sto; apply usound_seed.
+    - destruct Hc as [[-> _]|(p & O & Hp & Hl & Hd)].
+      + assert (floc_eqb entry entry = true) by (apply floc_eqb_eq; reflexivity). congruence.
+      + destruct (cjn_above m (il_pred f l) p O Hp Hl (proj1 (Hgood p O Hl))) as (J & HJ & Hab).
+        rewrite HJ in Hj. injection Hj as <-. unfold pick. rewrite E.
+        pose proof (cjn_good _ _ HJ J eq_refl) as GJ.
+        apply (usound_above f O J _ (Hgood p O Hl)); [intros k Hk; apply (proj1 (proj2 GJ)); exact Hk|exact Hd|exact Hab].
   Qed.
 
   Lemma post_of_pre l st l' st' ev asg : pre l st asg -> sem_step f l st = Sem.Next l' st' ev ->
-    exists O, clk m l = Some O /\ desc f O (st_env st') (asg_after asg ev).
+    exists O, clk m l = Some O /\ usound O (st_env st').
   Proof.
-    intros Hpre Hs. pose proof Hpre as (Hr & Hi & _).
+    intros Hpre Hs. pose proof Hpre as (Hr & _).
     destruct (clk m l) as [O|] eqn:Hl; [|exfalso; exact (proj2 (Hdom l) Hr Hl)].
     exists O. split; [reflexivity|].
     destruct (exact_eqn l O Hl) as (sto & new & Hj & Ht & Hget).
-    destruct (in_state_desc l st asg sto Hpre Hj) as [Gs Ds].
-    apply (desc_ext f new O); [exact Hget|].
+    destruct (in_state_usound l st asg sto Hpre Hj) as [Gs Ds].
+    apply (usound_ext new O); [exact Hget|]. rewrite (c_trans_pick f entry l sto Hff) in Ht.
     destruct (sem_step_next_inv f l st l' st' ev Hs) as [(i & Hins & Hex)|(Hins & -> & ->)].
-    - eapply (trans_desc f Hnames Hsrc l i sto st st' ev asg new (reach_loc l Hr) Hins _ eq_refl Gs Ds); [|exact Hex|exact Ht].
-      intros x Hx. apply Hi. destruct (da_facts f entry dm Hentry Hsol Hda) as (_ & _ & F3). exact (F3 l (reach_loc l Hr) x Hx).
-    - cbn [asg_after]. rewrite (c_trans_norm f) in Ht. unfold c_trans in Ht.
-      destruct l as [bi ii|h t|bi]; [|injection Ht as <-; exact Ds ..].
+    - exact (body_usound f Hnames Hsrc l i _ st st' ev new Hins Gs Ds Hex Ht).
+    - unfold c_body in Ht. destruct l as [bi ii|h t|bi]; [|injection Ht as <-; exact Ds ..].
       rewrite Hins in Ht. discriminate.
   Qed.
 
   Lemma pre_step l st l' st' ev asg : pre l st asg -> sem_step f l st = Sem.Next l' st' ev -> pre l' st' (asg_after asg ev).
   Proof.
-    intros Hpre Hs. pose proof Hpre as (Hr & Hi & _).
+    intros Hpre Hs. pose proof Hpre as (Hr & _).
     pose proof (sem_step_next f l st l' st' ev Hs) as Hin.
     assert (Hr' : reachL f entry l') by (eapply FixedPointProofs.reach_step; eassumption).
     assert (Hp : In l (il_pred f l')) by (apply (il_converse f Hinv eb Heb); assumption).
     destruct (post_of_pre l st l' st' ev asg Hpre Hs) as (O & Hl & Hd).
-    split; [exact Hr'|split].
-    - eapply (da_inv_step f entry dm Hentry Hsol Hda); [exact (reach_loc l' Hr')|exact Hp|exact Hi|exact Hs].
-    - right. exists l, O. auto.
+    split; [exact Hr'|]. right. exists l, O. auto.
   Qed.
 
   Lemma run_pre fuel : forall l st asg, pre l st asg ->
@@ -826,10 +761,7 @@ Section Sound.
   Qed.
 
   Lemma pre_entry st0 : pre entry st0 [].
-  Proof.
-    split; [apply FixedPointProofs.reach_entry|split; [|left; reflexivity]].
-    intros x Hx. destruct (da_facts f entry dm Hentry Hsol Hda) as (F1 & _). rewrite F1 in Hx. destruct Hx.
-  Qed.
+  Proof. split; [apply FixedPointProofs.reach_entry|left; auto]. Qed.
 End Sound.
 
 (* ================================================================== from the engine run to the theorems *)
@@ -849,10 +781,13 @@ Proof.
   destruct (backward f l) as [ps| |]; try discriminate. cbn [bind]. intros [= <-]. reflexivity.
 Qed.
 Lemma rfold_good f m ps : (forall l s, clk m l = Some s -> good f s) ->
-  forall c, good f c -> good f (fold_left (rstep m) ps c).
+  forall c, (cgood c /\ forall k, In k (keys c) -> In k (wkeys f)) ->
+  (cgood (fold_left (rstep m) ps c) /\ forall k, In k (keys (fold_left (rstep m) ps c)) -> In k (wkeys f)).
 Proof.
   intros Hm. induction ps as [|p ps IH]; intros c Hc; cbn [fold_left]; [exact Hc|]. apply IH.
-  unfold rstep. destruct (clk m p) as [s|] eqn:E; [apply good_join; [exact Hc|exact (Hm p s E)]|exact Hc].
+  unfold rstep. destruct (clk m p) as [s|] eqn:E; [|exact Hc]. destruct (Hm p s E) as (_ & S2 & S3). split.
+  - apply cgood_join; [exact (proj1 Hc)|exact S3].
+  - intros k Hk. destruct (cm_join_keys _ _ _ Hk) as [H|H]; [exact (proj2 Hc k H)|apply S2; exact H].
 Qed.
 
 Lemma constants_states_facts f max m : cfg_inv (f_cfg f) = true -> srcs_wf f = true -> constants_states max f = Ok m ->
@@ -885,15 +820,15 @@ Proof.
     exact (proj1 (Inv_final _ _ _ _ _ _ _ _ R m HI)).
   - apply (fp_good floc cmap floc_eqb floc_eqb_reflect (backward f) (forward f) (c_trans f) c_join cm_cmp
              (il_succ f) (il_pred f) (block_first_loc eb) Hfrom Hto Hconv (good f)) with (fuel := Datatypes.S (Datatypes.S max)) (force := false) (max := max).
-    + intros l st a Hr _ Hst Ht. apply (good_trans f Hsrc l st a); [|exact Hst|exact Ht].
-      apply (locations_valid f l Hinv). exact (reach_valid f Hinv eb Hin l Hr).
+    + intros l st a Hr _ Hst Ht. exact (good_trans f Hsrc (block_first_loc eb) l st a (from_function_of f e eb Ee Eb) Hst Ht).
     + intros a b j Ha Hb Hj. injection Hj as <-. apply good_join; assumption.
     + exact Er.
 Qed.
 
-(* C13 soundness, relative to the validated exactness of the solution (see notes/C13.md) *)
+
+(* C13 soundness, relative to exactness of the solution (discharged by constants_exact below) *)
 Theorem constants_sound_partial f max m r :
-  cfg_inv (f_cfg f) = true -> c13_wf f = true -> def_assigned f = true ->
+  cfg_inv (f_cfg f) = true -> c13_wf f = true ->
   constants_states max f = Ok m -> exact_solution f m = true -> remap f m m = Ok r ->
   forall l0 st0 fuel ti asg cm,
     entry_loc f = Some l0 ->
@@ -905,23 +840,23 @@ Theorem constants_sound_partial f max m r :
                  (forall x, In x (scalars e) -> key_mem (skey_of x) asg = true) ->
                  den (st_env (ti_before ti)) e = Ok v).
 Proof.
-  intros Hinv Hwf Hda Hst Hex Hre l0 st0 fuel ti asg cm Hl0 Hin Hg.
+  intros Hinv Hwf Hst Hex Hre l0 st0 fuel ti asg cm Hl0 Hin Hg.
   pose proof (Hsrc f Hwf) as Hsr.
   destruct (constants_states_facts f max m Hinv Hsr Hst) as (e & eb & He & Hb & Hdom & Hgood).
   rewrite (Hentry f e eb He Hb) in Hl0. injection Hl0 as <-.
-  destruct (da_solution f) as [dm|] eqn:Hsol.
-  2:{ unfold def_assigned in Hda. rewrite (Hentry f e eb He Hb), Hsol in Hda. discriminate. }
-  pose proof (run_pre f Hinv Hwf Hda e eb He Hb m Hdom Hgood Hex dm Hsol fuel _ st0 []
-                (pre_entry f Hda e eb He Hb m dm Hsol st0) ti asg Hin) as Hpre.
+  pose proof (run_pre f Hinv Hwf e eb He Hb m Hdom Hgood Hex fuel _ st0 [] (pre_entry f eb m st0) ti asg Hin) as (Hr & Hc).
   pose proof (remap_one_fold f m _ cm (remap_get f m m r _ cm Hre Hg)) as Hcm.
-  assert (Gcm : good f cm) by (rewrite Hcm; apply rfold_good; [exact Hgood|apply good_nil]).
-  assert (Dcm : desc f cm (st_env (ti_before ti)) asg).
-  { apply (pre_desc f eb m dm (ti_loc ti) (ti_before ti) asg cm Hpre (proj1 (proj2 Gcm))).
-    intros p O Hp Hl. rewrite Hcm. apply (remap_above m _ p O Hp Hl (proj1 (Hgood p O Hl))). }
+  assert (Gcm : cgood cm /\ forall k, In k (keys cm) -> In k (wkeys f)).
+  { rewrite Hcm. apply rfold_good; [exact Hgood|split; [constructor|intros k []]]. }
+  (* on the first visit of the entry nothing has been assigned; otherwise cm is described unconditionally *)
+  assert (Dcm : asg = [] \/ usound cm (st_env (ti_before ti))).
+  { destruct Hc as [[_ ->]|(p & O & Hp & Hl & Hd)]; [left; reflexivity|right].
+    apply (usound_above f O cm _ (Hgood p O Hl) (proj2 Gcm) Hd). rewrite Hcm.
+    apply (remap_above m _ p O Hp Hl (proj1 (Hgood p O Hl))). }
   split.
-  - intros s c Hs Hk. exact (proj2 Dcm s c Hs Hk).
-  - intros ex v We Hev Hk. apply (cm_eval_sound _ cm ex v (wfb_wf _ We) (proj2 (proj2 Gcm))); [|exact Hev].
-    intros x cx Hx Hgx. exact (proj2 Dcm x cx Hgx (Hk x Hx)).
+  - intros s c Hs Hk. destruct Dcm as [-> |D]; [discriminate Hk|exact (D s c Hs)].
+  - intros ex v We Hev Hk. apply (cm_eval_sound _ cm ex v (wfb_wf _ We) (proj1 Gcm)); [|exact Hev].
+    intros x cx Hx Hgx. destruct Dcm as [-> |D]; [specialize (Hk x Hx); discriminate Hk|exact (D x cx Hgx)].
 Qed.
 
 (* ================================================================== the remap pass is total (the repaired defect) *)
@@ -1034,30 +969,32 @@ Proof.
   - left. apply cm_scalar_get. exact Hy.
   - right. unfold cm_scalar. rewrite Hy. reflexivity.
 Qed.
-Lemma cm_scalar_none_mono s s' x : ple s s' -> cm_get s x <> None -> cm_scalar s x = None -> cm_scalar s' x = None.
+Lemma cm_scalar_none_mono s s' x : ple s s' -> (cm_get s x = None -> cm_get s' x = None) ->
+  cm_scalar s x = None -> cm_scalar s' x = None.
 Proof.
-  intros Hp Hpres H. destruct (cm_get s x) as [v|] eqn:E; [|contradiction].
-  destruct (Hp x v E) as (y & Hy & L). unfold cm_scalar in *. rewrite E in H. rewrite Hy.
-  destruct L as [<- | ->]; [|reflexivity]. destruct v; try reflexivity. discriminate.
+  intros Hp Hk H. destruct (cm_get s x) as [v|] eqn:E.
+  - destruct (Hp x v E) as (y & Hy & L). unfold cm_scalar in *. rewrite E in H. rewrite Hy.
+    destruct L as [<- | ->]; [|reflexivity]. destruct v; try reflexivity. discriminate.
+  - unfold cm_scalar. rewrite (Hk eq_refl). reflexivity.
 Qed.
 
-Lemma eval_fold_mono s s' : ple s s' -> forall ss e r, (forall x, In x ss -> cm_get s x <> None) ->
-  eval_fold s ss e = Ok r -> eval_fold s' ss e = Ok r \/ eval_fold s' ss e = Ok None.
+Lemma eval_fold_mono s s' : ple s s' -> (forall x, cm_get s x = None -> cm_get s' x = None) ->
+  forall ss e r, eval_fold s ss e = Ok r -> eval_fold s' ss e = Ok r \/ eval_fold s' ss e = Ok None.
 Proof.
-  intros Hp. induction ss as [|x t IH]; intros e r Hpres H; cbn [eval_fold] in *; [left; exact H|].
+  intros Hp Hk. induction ss as [|x t IH]; intros e r H; cbn [eval_fold] in *; [left; exact H|].
   destruct (cm_scalar s x) as [c|] eqn:Es.
   - destruct (replace_scalar e x (EConst c)) as [e'| |] eqn:Er; try discriminate.
     destruct (cm_scalar_mono s s' x c Hp Es) as [E'|E']; rewrite E'; [|right; reflexivity].
-    rewrite Er. apply IH; [intros y Hy; apply Hpres; right; exact Hy|exact H].
-  - injection H as <-. rewrite (cm_scalar_none_mono s s' x Hp (Hpres x (or_introl eq_refl)) Es). left. reflexivity.
+    rewrite Er. apply IH. exact H.
+  - injection H as <-. rewrite (cm_scalar_none_mono s s' x Hp (Hk x) Es). left. reflexivity.
 Qed.
 
-Lemma cm_eval_mono s s' e r : ple s s' -> (forall x, In x (scalars e) -> cm_get s x <> None) ->
+Lemma cm_eval_mono s s' e r : ple s s' -> (forall x, cm_get s x = None -> cm_get s' x = None) ->
   cm_eval s e = Ok r -> cm_eval s' e = Ok r \/ cm_eval s' e = Ok None.
 Proof.
-  intros Hp Hpres H. unfold cm_eval in *.
+  intros Hp Hk H. unfold cm_eval in *.
   destruct (eval_fold s (scalars e) e) as [r0| |] eqn:Ef; try discriminate. cbn [bind] in H.
-  destruct (eval_fold_mono s s' Hp _ _ _ Hpres Ef) as [E|E]; rewrite E; cbn [bind]; [left; exact H|right; reflexivity].
+  destruct (eval_fold_mono s s' Hp Hk _ _ _ Ef) as [E|E]; rewrite E; cbn [bind]; [left; exact H|right; reflexivity].
 Qed.
 
 Lemma ple_set s s' k v v' : ple s s' -> vle v v' -> ple (cm_set s k v) (cm_set s' k v').
@@ -1070,21 +1007,21 @@ Proof.
   destruct (Hp x v E) as (y' & -> & _). exists CTop. split; [reflexivity|left; reflexivity].
 Qed.
 
-Lemma c_trans_mono f l s s' a : ple s s' -> (forall x, In x (loc_reads f l) -> cm_get s x <> None) ->
-  c_trans f l (Some s) = Ok a -> exists a', c_trans f l (Some s') = Ok a' /\ ple a a'.
+Lemma c_body_mono f l s s' a : ple s s' -> (forall x, cm_get s x = None -> cm_get s' x = None) ->
+  c_body f l s = Ok a -> exists a', c_body f l s' = Ok a' /\ ple a a'.
 Proof.
-  intros Hp Hpres. cbv beta iota zeta delta [c_trans]. unfold loc_reads in Hpres.
+  intros Hp Hk. unfold c_body.
   destruct l as [bi ii|h t|bi]; try (intros [= <-]; eauto).
   destruct (loc_instruction f (LInstr bi ii)) as [i|]; [|discriminate].
-  destruct (i_op i) as [dst src|idx src|dst idx|tgt|intr|ph]; cbn [op_scalars_read] in Hpres.
+  destruct (i_op i) as [dst src|idx src|dst idx|tgt|intr|ph].
   - destruct (cm_eval s src) as [r| |] eqn:Ee; try discriminate. cbn [bind]. intros [= <-].
-    destruct (cm_eval_mono s s' src r Hp Hpres Ee) as [E|E]; rewrite E; cbn [bind]; eexists; (split; [reflexivity|]);
+    destruct (cm_eval_mono s s' src r Hp Hk Ee) as [E|E]; rewrite E; cbn [bind]; eexists; (split; [reflexivity|]);
       apply ple_set; try exact Hp; [left; reflexivity|destruct r; [right; reflexivity|left; reflexivity]].
   - intros [= <-]. eauto.
   - intros [= <-]. eexists. split; [reflexivity|]. apply ple_set; [exact Hp|left; reflexivity].
   - intros [= <-]. eexists. split; [reflexivity|]. apply ple_top. exact Hp.
   - destruct (intr_scalars_written intr) as [ws|]; intros [= <-]; eexists; (split; [reflexivity|]); [|apply ple_top; exact Hp].
-    clear Hpres. revert s s' Hp. induction ws as [|w ws IH]; intros s s' Hp; cbn [fold_left]; [exact Hp|].
+    clear Hk. revert s s' Hp. induction ws as [|w ws IH]; intros s s' Hp; cbn [fold_left]; [exact Hp|].
     apply IH. apply ple_set; [exact Hp|left; reflexivity].
   - intros [= <-]. eauto.
 Qed.
@@ -1148,46 +1085,24 @@ Proof.
 Qed.
 
 (* the transfer function keeps the keys of its input and adds the scalars the location writes *)
-Lemma c_trans_keys f l s a : c_trans f l (Some s) = Ok a ->
-  (forall x, cm_get s x <> None -> cm_get a x <> None) /\ (forall x, In x (loc_writes f l) -> cm_get a x <> None).
-Proof.
-  cbv beta iota zeta delta [c_trans]. unfold loc_writes.
-  destruct l as [bi ii|h t|bi]; try (intros [= <-]; split; [auto|cbn [loc_instruction]; intros x []]).
-  destruct (loc_instruction f (LInstr bi ii)) as [i|]; [|discriminate].
-  destruct (i_op i) as [dst src|idx src|dst idx|tgt|intr|ph].
-  - destruct (cm_eval s src) as [r| |]; try discriminate. cbn [bind]. intros [= <-]. split.
-    + intros x Hx. rewrite cm_get_set. destruct (scalar_eqb dst x); [discriminate|exact Hx].
-    + intros x [<-|[]]. rewrite cm_get_set, scalar_eqb_refl. discriminate.
-  - intros [= <-]. split; [auto|intros x []].
-  - intros [= <-]. split.
-    + intros x Hx. rewrite cm_get_set. destruct (scalar_eqb dst x); [discriminate|exact Hx].
-    + intros x [<-|[]]. rewrite cm_get_set, scalar_eqb_refl. discriminate.
-  - intros [= <-]. split; [|intros x []]. intros x Hx. rewrite cm_get_top. destruct (cm_get s x); [discriminate|contradiction].
-  - destruct (intr_scalars_written intr) as [ws|]; intros [= <-]; (split; [|intros x []]).
-    + revert s. induction ws as [|w ws IH]; intros s x Hx; cbn [fold_left]; [exact Hx|]. apply IH.
-      rewrite cm_get_set. destruct (scalar_eqb w x); [discriminate|exact Hx].
-    + intros x Hx. rewrite cm_get_top. destruct (cm_get s x); [discriminate|contradiction].
-  - intros [= <-]. split; [auto|intros x []].
-Qed.
 
-Lemma above_present O A x : above O A -> cm_get O x <> None -> cm_get A x <> None.
-Proof. intros Hab H. destruct (cm_get O x) as [v|] eqn:E; [|contradiction]. destruct (Hab x v E) as [H1|H1]; rewrite H1; discriminate. Qed.
+Lemma good_none f a b k : good f a -> good f b -> cm_get a k = None -> cm_get b k = None.
+Proof.
+  intros (_ & A & _) (_ & B & _) H. apply cm_get_none. apply cm_get_none in H. intros Hk. apply H. apply A. apply B. exact Hk.
+Qed.
 
 (* ---------- the run invariant ---------- *)
 Section Exact.
   Variable f : func.
   Hypothesis Hinv : cfg_inv (f_cfg f) = true.
   Hypothesis Hsrcs : srcs_wf f = true.
-  Hypothesis Hda : def_assigned f = true.
   Variables (e : Z) (eb : block).
   Hypothesis He : g_entry (f_cfg f) = Some e.
   Hypothesis Hb : find_block (f_blocks f) e = Some eb.
   Let entry := block_first_loc eb.
-  Variable dm : da_map.
-  Hypothesis Hsol : da_solution f = Some dm.
 
   Let Hebin : In eb (f_blocks f) := proj1 (find_block_some _ _ _ Hb).
-  Let Hent : entry_loc f = Some entry. Proof. unfold entry_loc. rewrite He, Hb. reflexivity. Qed.
+  Let Hff : from_function f = Some (Ok entry) := from_function_of f e eb He Hb.
   Let Hfrom := il_from_ok f Hinv eb Hebin.
   Let Hto := il_to_ok f Hinv eb Hebin.
   Let Hconv := il_converse f Hinv eb Hebin.
@@ -1195,12 +1110,9 @@ Section Exact.
   Notation In_domC := (In_dom floc cmap floc_eqb).
   Notation RchC := (Rch floc cmap floc_eqb (il_succ f) entry).
   Notation FedC := (Fed floc cmap floc_eqb (il_pred f) entry).
-  Notation bstepC := (bstep floc cmap floc_eqb (backward f) (forward f) (c_trans f) c_join cm_cmp false).
   Definition Req (new s : cmap) : Prop := cm_cmp new s = Some Eq \/ new = s.
   Notation InvC := (Inv floc cmap floc_eqb (c_trans f) c_join (il_succ f) (il_pred f) entry Req).
 
-  Definition Kinv (m : list (floc * cmap)) : Prop :=
-    forall l s, clk m l = Some s -> forall x, In x (da_get dm l) \/ In x (loc_writes f l) -> cm_get s x <> None.
   Definition DomFed (m : list (floc * cmap)) : Prop :=
     forall l, In_domC m l -> l = entry \/ exists p, In p (il_pred f l) /\ In_domC m p.
   Definition Asc (m : list (floc * cmap)) : Prop :=
@@ -1208,83 +1120,46 @@ Section Exact.
   Definition GoodC (m : list (floc * cmap)) : Prop := forall l s, clk m l = Some s -> good f s.
 
   Definition XI (m : list (floc * cmap)) (q : list floc) : Prop :=
-    RchC m q /\ FedC m q /\ InvC m q /\ GoodC m /\ DomFed m /\ Kinv m /\ Asc m /\ NoDup (List.map fst m).
+    RchC m q /\ FedC m q /\ InvC m q /\ GoodC m /\ DomFed m /\ Asc m /\ NoDup (List.map fst m).
 
-  Definition sof (sto : option cmap) : cmap := match sto with Some s => s | None => [] end.
-
-  Lemma reach_in_loc l : reachL f entry l -> In l (locations f).
-  Proof. intros H. apply (locations_valid f l Hinv). exact (reach_valid f Hinv eb Hebin l H). Qed.
-
-  Lemma cjn_goodC m ps sto : GoodC m -> cjn m ps = Ok sto -> good f (sof sto).
+  Lemma cjn_goodC m ps sto : GoodC m -> cjn m ps = Ok sto -> forall s, sto = Some s -> good f s.
   Proof.
-    intros HG H. destruct sto as [s|]; [|apply good_nil]. cbn [sof].
-    apply (join_neighbours_good floc cmap floc_eqb c_join (good f)
-             (fun a b j Ha Hb0 Hj => ltac:(injection Hj as <-; apply good_join; assumption)) m ps (Some s) HG H s eq_refl).
+    intros HG H. apply (join_neighbours_good floc cmap floc_eqb c_join (good f)
+             (fun a b j Ha Hb0 Hj => ltac:(injection Hj as <-; apply good_join; assumption)) m ps sto HG H).
   Qed.
-
-  (* every scalar definitely assigned before l is a key of the in-state at l *)
-  Lemma presence m l sto : GoodC m -> Kinv m -> reachL f entry l ->
-    (l = entry \/ exists p, In p (il_pred f l) /\ In_domC m p) ->
-    cjn m (il_pred f l) = Ok sto -> forall x, In x (da_get dm l) -> cm_get (sof sto) x <> None.
-  Proof.
-    intros HG HK Hr Hfed Hj x Hx. destruct (da_facts f entry dm Hent Hsol Hda) as (F1 & F2 & _).
-    destruct (floc_eqb l entry) eqn:E.
-    - apply floc_eqb_eq in E. subst l. rewrite F1 in Hx. destruct Hx.
-    - assert (Hne : l <> entry) by (intros ->; assert (floc_eqb entry entry = true) by (apply floc_eqb_eq; reflexivity); congruence).
-      destruct Hfed as [->|(p & Hp & Hd)]; [contradiction|].
-      destruct (clk m p) as [O|] eqn:EO; [|exfalso; apply Hd; exact EO].
-      destruct (cjn_above m (il_pred f l) p O Hp EO (proj1 (HG p O EO))) as (J & HJ & Hab).
-      rewrite HJ in Hj. injection Hj as <-. cbn [sof]. apply (above_present O J x Hab).
-      apply (HK p O EO). destruct (F2 l (reach_in_loc l Hr) Hne p Hp x Hx); auto.
-  Qed.
-
-  Lemma c_trans_sof l sto : c_trans f l sto = c_trans f l (Some (sof sto)).
-  Proof. destruct sto; reflexivity. Qed.
 
   (* re-evaluating the equation at x after the map has grown gives a larger result *)
-  Lemma eqn_mono m m2 x sto nx : GoodC m -> GoodC m2 -> Kinv m -> mle m m2 -> reachL f entry x ->
+  Lemma eqn_mono m m2 x sto nx : GoodC m -> GoodC m2 -> mle m m2 ->
     (x = entry \/ exists p, In p (il_pred f x) /\ In_domC m p) ->
     cjn m (il_pred f x) = Ok sto -> c_trans f x sto = Ok nx ->
     exists sto2 nx2, cjn m2 (il_pred f x) = Ok sto2 /\ c_trans f x sto2 = Ok nx2 /\ ple nx nx2.
   Proof.
-    intros HG HG2 HK Hm Hr Hfed Hj Ht.
+    intros HG HG2 Hm Hfed Hj Ht.
     destruct (cjn_mono m m2 (il_pred f x) Hm (fun l s H => proj1 (HG l s H)) (fun l s H => proj1 (HG2 l s H)) None None I sto Hj)
       as (sto2 & Hj2 & Ho).
-    assert (Hp : ple (sof sto) (sof sto2)).
-    { destruct sto as [a|], sto2 as [b|]; cbn [sof ople] in *; [exact Ho|contradiction|apply ple_nil|apply ple_refl]. }
-    rewrite c_trans_sof in Ht.
-    destruct (c_trans_mono f x (sof sto) (sof sto2) nx Hp) as (nx2 & Ht2 & Hle); [|exact Ht|].
-    - intros y Hy. apply (presence m x sto HG HK Hr Hfed Hj).
-      destruct (da_facts f entry dm Hent Hsol Hda) as (_ & _ & F3). exact (F3 x (reach_in_loc x Hr) y Hy).
-    - exists sto2, nx2. rewrite (c_trans_sof x sto2). auto.
+    rewrite (c_trans_pick f entry x sto Hff) in Ht.
+    assert (Hp : ple (pick f entry x sto) (pick f entry x sto2) /\
+                 forall k, cm_get (pick f entry x sto) k = None -> cm_get (pick f entry x sto2) k = None).
+    { split.
+      - unfold pick. destruct (floc_eqb x entry) eqn:E.
+        + destruct sto, sto2; apply ple_refl.
+        + destruct Hfed as [->|(p & Hp & Hd)]; [assert (floc_eqb entry entry = true) by (apply floc_eqb_eq; reflexivity); congruence|].
+          pose proof (join_neighbours_some floc cmap floc_eqb c_join m (il_pred f x) sto (ex_intro _ p (conj Hp Hd)) Hj) as Hne.
+          destruct sto as [a|]; [|contradiction]. destruct sto2 as [b|]; [exact Ho|destruct Ho].
+      - intros k. apply (good_none f); apply good_pick; intros s Hs;
+          [exact (cjn_goodC m _ sto HG Hj s Hs)|exact (cjn_goodC m2 _ sto2 HG2 Hj2 s Hs)]. }
+    destruct (c_body_mono f x _ _ nx (proj1 Hp) (proj2 Hp) Ht) as (nx2 & Ht2 & Hle).
+    exists sto2, nx2. rewrite (c_trans_pick f entry x sto2 Hff). auto.
   Qed.
-End Exact.
-
-Section Exact2.
-  Variable f : func.
-  Hypothesis Hinv : cfg_inv (f_cfg f) = true.
-  Hypothesis Hsrcs : srcs_wf f = true.
-  Hypothesis Hda : def_assigned f = true.
-  Variables (e : Z) (eb : block).
-  Hypothesis He : g_entry (f_cfg f) = Some e.
-  Hypothesis Hb : find_block (f_blocks f) e = Some eb.
-  Let entry := block_first_loc eb.
-  Variable dm : da_map.
-  Hypothesis Hsol : da_solution f = Some dm.
-
-  Let Hebin : In eb (f_blocks f) := proj1 (find_block_some _ _ _ Hb).
-  Let Hfrom := il_from_ok f Hinv eb Hebin.
-  Let Hto := il_to_ok f Hinv eb Hebin.
-  Let Hconv := il_converse f Hinv eb Hebin.
 
   Notation lis := (lookup_insert_same floc cmap floc_eqb floc_eqb_reflect).
   Notation lio := (lookup_insert_other floc cmap floc_eqb floc_eqb_reflect).
 
-  Lemma XI_step m l q' m2 q2 : XI f eb dm m (l :: q') ->
+  Lemma XI_step m l q' m2 q2 : XI m (l :: q') ->
     bstep floc cmap floc_eqb (backward f) (forward f) (c_trans f) c_join cm_cmp false m l q' = Next floc cmap m2 q2 ->
-    XI f eb dm m2 q2.
+    XI m2 q2.
   Proof.
-    intros (HR & HF & HI & HG & HD & HK & HA & HN) Hbs.
+    intros (HR & HF & HI & HG & HD & HA & HN) Hbs.
     pose proof (Rch_step floc cmap floc_eqb floc_eqb_reflect (backward f) (forward f) (c_trans f) c_join cm_cmp (il_succ f) entry Hto false m l q' m2 q2 HR Hbs) as HR2.
     pose proof (Fed_step floc cmap floc_eqb floc_eqb_reflect (backward f) (forward f) (c_trans f) c_join cm_cmp (il_succ f) (il_pred f) entry Hto Hconv false m l q' m2 q2 HR HF Hbs) as HF2.
     assert (HI2 : Inv floc cmap floc_eqb (c_trans f) c_join (il_succ f) (il_pred f) entry Req m2 q2).
@@ -1295,17 +1170,15 @@ Section Exact2.
       - discriminate. }
     assert (Rl : reachL f entry l) by (apply HR; right; left; reflexivity).
     destruct (bstep_next _ _ _ _ _ _ _ _ _ _ _ _ _ _ Hbs) as (ps & st & new & H1 & H2 & H3 & [(old & Hl & Hc & -> & ->)|(s & ss & Hp & -> & -> & Hs)]).
-    { exact (conj HR2 (conj HF2 (conj HI2 (conj HG (conj HD (conj HK (conj HA HN))))))). }
+    { exact (conj HR2 (conj HF2 (conj HI2 (conj HG (conj HD (conj HA HN)))))). }
     rewrite (Hfrom l Rl) in H1. injection H1 as <-.
     assert (Es : s = new).
     { destruct Hs as [[_ ->]|(old & _ & _ & [(_ & _ & ->)|(Hf & _)])]; [reflexivity|reflexivity|discriminate Hf]. }
     subst s.
     assert (Hfedl : l = entry \/ exists p, In p (il_pred f l) /\ In_dom floc cmap floc_eqb m p) by (apply HF; left; reflexivity).
-    assert (Gin : good f (sof st)) by (eapply cjn_goodC; eassumption).
     assert (Gnew : good f new).
-    { apply (good_trans f Hsrcs l (Some (sof st)) new (reach_in_loc f Hinv e eb Hb l Rl)); [intros s0 [= <-]; exact Gin|].
-      rewrite <- c_trans_sof. exact H3. }
-    assert (HG2 : GoodC f (FixedPoint.insert floc cmap floc_eqb m l new)).
+    { apply (good_trans f Hsrcs entry l st new Hff); [intros s0 Hs0; eapply cjn_goodC; eassumption|exact H3]. }
+    assert (HG2 : GoodC (FixedPoint.insert floc cmap floc_eqb m l new)).
     { intros x sx Hx. destruct (floc_eqb_reflect x l) as [->|N].
       - rewrite lis in Hx. injection Hx as <-. exact Gnew.
       - rewrite lio in Hx by exact N. exact (HG x sx Hx). }
@@ -1316,31 +1189,33 @@ Section Exact2.
       - rewrite lio by exact N. exists sx. split; [exact Hx|apply ple_refl]. }
     assert (Hdom2 : forall x, In_dom floc cmap floc_eqb m x -> In_dom floc cmap floc_eqb (FixedPoint.insert floc cmap floc_eqb m l new) x).
     { intros x Hx. apply (In_dom_insert floc cmap floc_eqb floc_eqb_reflect (c_trans f) c_join cm_cmp entry). right. exact Hx. }
-    refine (conj HR2 (conj HF2 (conj HI2 (conj HG2 (conj _ (conj _ (conj _ _))))))).
+    refine (conj HR2 (conj HF2 (conj HI2 (conj HG2 (conj _ (conj _ _)))))).
     - (* DomFed *)
       intros x Hx. apply (In_dom_insert floc cmap floc_eqb floc_eqb_reflect (c_trans f) c_join cm_cmp entry) in Hx.
       assert (Hfx : x = entry \/ exists p, In p (il_pred f x) /\ In_dom floc cmap floc_eqb m p) by (destruct Hx as [->|Hx]; [exact Hfedl|exact (HD x Hx)]).
       destruct Hfx as [->|(p & Hp1 & Hp2)]; [left; reflexivity|right; exists p; split; [exact Hp1|exact (Hdom2 p Hp2)]].
-    - (* Kinv *)
-      intros x sx Hx y Hy. destruct (floc_eqb_reflect x l) as [->|N]; [|rewrite lio in Hx by exact N; exact (HK x sx Hx y Hy)].
-      rewrite lis in Hx. injection Hx as <-. rewrite c_trans_sof in H3. destruct (c_trans_keys f l (sof st) new H3) as [K1 K2].
-      destruct Hy as [Hy|Hy]; [|exact (K2 y Hy)]. apply K1.
-      exact (presence f Hinv Hda e eb He Hb dm Hsol m l st HG HK Rl Hfedl H2 y Hy).
     - (* Asc *)
       intros x sx Hx. destruct (floc_eqb_reflect x l) as [->|N].
       + rewrite lis in Hx. injection Hx as <-.
-        destruct (eqn_mono f Hinv Hda e eb He Hb dm Hsol m _ l st new HG HG2 HK Hmle Rl Hfedl H2 H3) as (sto2 & nx2 & A & B & C).
+        destruct (eqn_mono m _ l st new HG HG2 Hmle Hfedl H2 H3) as (sto2 & nx2 & A & B & C).
         exists sto2, nx2. auto.
       + rewrite lio in Hx by exact N.
         destruct (HA x sx Hx) as (sto0 & nx & J0 & T0 & P0).
-        assert (Rx : reachL f entry x) by (apply HR; left; unfold In_dom; congruence).
         assert (Hfx : x = entry \/ exists p, In p (il_pred f x) /\ In_dom floc cmap floc_eqb m p) by (apply HD; unfold In_dom; congruence).
-        destruct (eqn_mono f Hinv Hda e eb He Hb dm Hsol m _ x sto0 nx HG HG2 HK Hmle Rx Hfx J0 T0) as (sto2 & nx2 & A & B & C).
+        destruct (eqn_mono m _ x sto0 nx HG HG2 Hmle Hfx J0 T0) as (sto2 & nx2 & A & B & C).
         exists sto2, nx2. split; [exact A|split; [exact B|eapply ple_trans; eassumption]].
     - apply fp_insert_nodup. exact HN.
   Qed.
-End Exact2.
 
+  Lemma XI_init : XI [] [entry].
+  Proof.
+    refine (conj (Rch_init _ _ _ _ _) (conj (Fed_init _ _ _ _ _) (conj (Inv_init _ _ _ _ _ _ _ _ _) (conj _ (conj _ (conj _ _)))))).
+    - intros l s Hl. discriminate Hl.
+    - intros l Hl. exfalso. apply Hl. reflexivity.
+    - intros l s Hl. discriminate Hl.
+    - constructor.
+  Qed.
+End Exact.
 Lemma cmap_eqb_refl s : NoDup (keys s) -> cmap_eqb s s = true.
 Proof.
   intros Hn. unfold cmap_eqb. rewrite Nat.eqb_refl. cbn [andb].
@@ -1349,52 +1224,43 @@ Proof.
   rewrite H. reflexivity.
 Qed.
 
-(* C13: on def_assigned functions the engine's result is an EXACT solution (discharges the hypothesis of
-   constants_sound_partial) *)
+
+(* C13: the engine's result is an EXACT solution of the equations *)
 Theorem constants_exact f max m :
-  cfg_inv (f_cfg f) = true -> srcs_wf f = true -> def_assigned f = true ->
+  cfg_inv (f_cfg f) = true -> srcs_wf f = true ->
   constants_states max f = Ok m -> exact_solution f m = true.
 Proof.
-  intros Hinv Hsrc Hda H. unfold constants_states, fp_forward in H.
+  intros Hinv Hsrc H. unfold constants_states, fp_forward in H.
   destruct (g_entry (f_cfg f)) as [e|] eqn:Ee; [|discriminate].
   unfold f_block, cfg_block in H. fold (f_blocks f) in H.
   destruct (find_block (f_blocks f) e) as [eb|] eqn:Eb; [|discriminate]. cbn [bind] in H.
   match type of H with of_outcome _ ?R = _ => destruct R as [m'| | |] eqn:Er; try discriminate end.
   cbn [of_outcome] in H. injection H as ->.
-  destruct (da_solution f) as [dm|] eqn:Hsol.
-  2:{ unfold def_assigned in Hda. unfold entry_loc in Hda. rewrite Ee, Eb, Hsol in Hda. discriminate. }
   pose proof (proj1 (find_block_some _ _ _ Eb)) as Hin.
   pose proof (il_from_ok f Hinv eb Hin) as Hfrom.
+  pose proof (from_function_of f e eb Ee Eb) as Hff.
   destruct (run_done_term _ _ _ _ _ _ _ _ _ _ _ _ _ _ _ Er) as (n & Hterm).
-  assert (HX : XI f eb dm m []).
-  { refine (term_inv floc cmap floc_eqb (backward f) (forward f) (c_trans f) c_join cm_cmp (XI f eb dm) false _ _ _ _ _ Hterm _).
-    - intros m0 l q' m2 q2 H0 Hbs. exact (XI_step f Hinv Hsrc Hda e eb Ee Eb dm Hsol m0 l q' m2 q2 H0 Hbs).
-    - refine (conj (Rch_init _ _ _ _ _) (conj (Fed_init _ _ _ _ _) (conj (Inv_init _ _ _ _ _ _ _ _ _) (conj _ (conj _ (conj _ (conj _ _))))))).
-      + intros l s Hl. discriminate Hl.
-      + intros l Hl. exfalso. apply Hl. reflexivity.
-      + intros l s Hl. discriminate Hl.
-      + intros l s Hl. discriminate Hl.
-      + constructor. }
-  destruct HX as (HR & _ & HI & HG & HD & HK & HA & HN).
+  assert (HX : XI f eb m []).
+  { refine (term_inv floc cmap floc_eqb (backward f) (forward f) (c_trans f) c_join cm_cmp (XI f eb) false _ _ _ _ _ Hterm (XI_init f eb)).
+    intros m0 l q' m2 q2 H0 Hbs. exact (XI_step f Hinv Hsrc e eb Ee Eb m0 l q' m2 q2 H0 Hbs). }
+  destruct HX as (HR & _ & HI & HG & HD & HA & HN).
   destruct (Inv_final _ _ _ _ _ _ _ _ _ m HI) as [Hdom Hholds].
   unfold exact_solution. apply forallb_forall. intros [l s] Hls. cbn [fst snd].
   pose proof (fp_in_lookup m l s HN Hls) as Hl.
   assert (Hd : In_dom floc cmap floc_eqb m l) by (unfold In_dom; congruence).
-  destruct (Hholds l Hd) as (st & new & s' & J & T & L & Rq). rewrite Hl in L. injection L as <-.
+  destruct (Hholds l Hd) as (st & new & s' & J & T & L0 & Rq). rewrite Hl in L0. injection L0 as <-.
   destruct (HA l s Hl) as (st0 & new0 & J0 & T0 & P0). rewrite J in J0. injection J0 as <-. rewrite T in T0. injection T0 as <-.
   assert (Rl : reachL f (block_first_loc eb) l) by (apply Hdom; exact Hd).
   unfold exact_at. rewrite (Hfrom l Rl), J, T.
   assert (Gnew : good f new).
-  { apply (good_trans f Hsrc l (Some (sof st)) new (reach_in_loc f Hinv e eb Eb l Rl)).
-    - intros s0 [= <-]. eapply cjn_goodC; eassumption.
-    - rewrite <- c_trans_sof. exact T. }
+  { apply (good_trans f Hsrc (block_first_loc eb) l st new Hff); [intros s0 Hs0; eapply cjn_goodC; eassumption|exact T]. }
   destruct Rq as [Hc| ->]; [|apply cmap_eqb_refl; exact (proj1 Gnew)].
   apply cmp_eq_exact; [exact (proj1 Gnew)|exact (proj1 (HG l s Hl))|exact P0|exact Hc].
 Qed.
 
-(* C13 soundness at full strength on the def_assigned class *)
+(* C13 soundness at full strength: no definite-assignment hypothesis *)
 Theorem constants_sound f max r :
-  cfg_inv (f_cfg f) = true -> c13_wf f = true -> def_assigned f = true ->
+  cfg_inv (f_cfg f) = true -> c13_wf f = true ->
   constants_max max f = Ok r ->
   forall l0 st0 fuel ti asg cm,
     entry_loc f = Some l0 ->
@@ -1406,10 +1272,10 @@ Theorem constants_sound f max r :
                  (forall x, In x (scalars e) -> key_mem (skey_of x) asg = true) ->
                  den (st_env (ti_before ti)) e = Ok v).
 Proof.
-  intros Hinv Hwf Hda Hr. unfold constants_max in Hr.
+  intros Hinv Hwf Hr. unfold constants_max in Hr.
   destruct (constants_states max f) as [m| |] eqn:Hst; try discriminate. cbn [bind] in Hr.
-  apply (constants_sound_partial f max m r Hinv Hwf Hda Hst); [|exact Hr].
-  apply (constants_exact f max m Hinv (Hsrc f Hwf) Hda Hst).
+  apply (constants_sound_partial f max m r Hinv Hwf Hst); [|exact Hr].
+  apply (constants_exact f max m Hinv (Hsrc f Hwf) Hst).
 Qed.
 
 (* ================================================================== completion up to the step budget *)
@@ -1497,23 +1363,22 @@ Proof.
   destruct acc as [a|]; cbn [c_join]; apply IH.
 Qed.
 
+
 Section Complete13.
   Variable f : func.
   Hypothesis Hinv : cfg_inv (f_cfg f) = true.
   Hypothesis Hsrcs : srcs_wf f = true.
-  Hypothesis Hda : def_assigned f = true.
   Variables (e : Z) (eb : block).
   Hypothesis He : g_entry (f_cfg f) = Some e.
   Hypothesis Hb : find_block (f_blocks f) e = Some eb.
   Let entry := block_first_loc eb.
-  Variable dm : da_map.
-  Hypothesis Hsol : da_solution f = Some dm.
   Let Hebin : In eb (f_blocks f) := proj1 (find_block_some _ _ _ Hb).
+  Let Hff : from_function f = Some (Ok entry) := from_function_of f e eb He Hb.
 
-  Lemma c_trans_total l s : reachL f entry l -> good f s -> exists a, c_trans f l (Some s) = Ok a.
+  Lemma c_body_total l s : reachL f entry l -> good f s -> exists a, c_body f l s = Ok a.
   Proof.
     intros Hr Hg. pose proof (reach_valid f Hinv eb Hebin l Hr) as Hv.
-    cbv beta iota zeta delta [c_trans]. destruct l as [bi ii|h t|bi]; try (eexists; reflexivity).
+    unfold c_body. destruct l as [bi ii|h t|bi]; try (eexists; reflexivity).
     destruct (loc_instruction f (LInstr bi ii)) as [i|] eqn:Hi.
     2:{ exfalso. cbn [valid_loc loc_instruction] in *. destruct (find_block (f_blocks f) bi); [|discriminate].
         destruct (block_instruction b ii); discriminate. }
@@ -1524,58 +1389,46 @@ Section Complete13.
   Qed.
 
   (* an iteration of the loop never stops with an error on a state satisfying the invariant *)
-  Lemma bstep_total m l q' : XI f eb dm m (l :: q') ->
+  Lemma bstep_total m l q' : XI f eb m (l :: q') ->
     exists m2 q2, bstep floc cmap floc_eqb (backward f) (forward f) (c_trans f) c_join cm_cmp false m l q' = Next floc cmap m2 q2.
   Proof.
-    intros (HR & HF & HI & HG & HD & HK & HA & HN).
+    intros (HR & HF & HI & HG & HD & HA & HN).
     assert (Rl : reachL f entry l) by (apply HR; right; left; reflexivity).
     unfold bstep. rewrite (il_from_ok f Hinv eb Hebin l Rl).
     destruct (cjn_total m (il_pred f l)) as (st & Hj). rewrite Hj.
-    assert (Gin : good f (sof st)) by (eapply cjn_goodC; eassumption).
-    destruct (c_trans_total l (sof st) Rl Gin) as (new & Ht). rewrite <- c_trans_sof in Ht. rewrite Ht.
+    assert (Gin : good f (pick f entry l st)) by (apply good_pick; intros s Hs; eapply cjn_goodC; eassumption).
+    destruct (c_body_total l _ Rl Gin) as (new & Ht). rewrite <- (c_trans_pick f entry l st Hff) in Ht. rewrite Ht.
     rewrite (il_to_ok f Hinv eb Hebin l Rl).
     destruct (clk m l) as [old|] eqn:Hl; [|eauto].
     destruct (HA l old Hl) as (st0 & new0 & J0 & T0 & P0). rewrite Hj in J0. injection J0 as <-. rewrite Ht in T0. injection T0 as <-.
     assert (Gnew : good f new).
-    { apply (good_trans f Hsrcs l (Some (sof st)) new (reach_in_loc f Hinv e eb Hb l Rl)); [intros s0 [= <-]; exact Gin|].
-      rewrite <- c_trans_sof. exact Ht. }
+    { apply (good_trans f Hsrcs entry l st new Hff); [intros s0 Hs0; eapply cjn_goodC; eassumption|exact Ht]. }
     destruct (ple_cmp old new (proj1 (HG l old Hl)) (proj1 Gnew) P0) as [-> | ->]; eauto.
   Qed.
 
   Lemma term_done_only n o : forall m q, term floc cmap floc_eqb (backward f) (forward f) (c_trans f) c_join cm_cmp false m q n o ->
-    XI f eb dm m q -> exists m', o = Done m'.
+    XI f eb m q -> exists m', o = Done m'.
   Proof.
     intros m q Ht. induction Ht as [m|m l q' o Hbs|m l q' m2 q2 n o Hbs Ht IH]; intros HX.
     - eauto.
     - destruct (bstep_total m l q' HX) as (m2 & q2 & E). rewrite E in Hbs. discriminate.
-    - apply IH. exact (XI_step f Hinv Hsrcs Hda e eb He Hb dm Hsol m l q' m2 q2 HX Hbs).
+    - apply IH. exact (XI_step f Hinv Hsrcs e eb He Hb m l q' m2 q2 HX Hbs).
   Qed.
 End Complete13.
 
-(* C13 completion up to the step budget: on a def_assigned function the analysis returns a result or
-   stops on the engine's step budget -- never FixedPointOrdering, never a panic, never another error *)
-Theorem constants_completes_partial f max :
-  cfg_inv (f_cfg f) = true -> c13_wf f = true -> def_assigned f = true ->
+(* for ANY budget the only possible failure is FixedPointMaxSteps: never FixedPointOrdering, never a
+   panic, never another error -- on every function with an entry (no definite-assignment hypothesis) *)
+Theorem constants_only_budget_error f max :
+  cfg_inv (f_cfg f) = true -> c13_wf f = true -> entry_loc f <> None ->
   (exists r, constants_max max f = Ok r) \/ constants_max max f = Err EMaxSteps.
 Proof.
-  intros Hinv Hwf Hda. pose proof (Hsrc f Hwf) as Hsr.
-  destruct (g_entry (f_cfg f)) as [e|] eqn:Ee.
-  2:{ unfold def_assigned, entry_loc in Hda. rewrite Ee in Hda. discriminate. }
-  destruct (find_block (f_blocks f) e) as [eb|] eqn:Eb.
-  2:{ unfold def_assigned, entry_loc in Hda. rewrite Ee, Eb in Hda. discriminate. }
-  destruct (da_solution f) as [dm|] eqn:Hsol.
-  2:{ unfold def_assigned, entry_loc in Hda. rewrite Ee, Eb, Hsol in Hda. discriminate. }
-  assert (HX0 : XI f eb dm [] [block_first_loc eb]).
-  { refine (conj (Rch_init _ _ _ _ _) (conj (Fed_init _ _ _ _ _) (conj (Inv_init _ _ _ _ _ _ _ _ _) (conj _ (conj _ (conj _ (conj _ _))))))).
-    - intros l s Hl. discriminate Hl.
-    - intros l Hl. exfalso. apply Hl. reflexivity.
-    - intros l s Hl. discriminate Hl.
-    - intros l s Hl. discriminate Hl.
-    - constructor. }
+  intros Hinv Hwf Hent. pose proof (Hsrc f Hwf) as Hsr. unfold entry_loc in Hent.
+  destruct (g_entry (f_cfg f)) as [e|] eqn:Ee; [|contradiction].
+  destruct (find_block (f_blocks f) e) as [eb|] eqn:Eb; [|contradiction].
   assert (Hrun : (exists m, constants_states max f = Ok m) \/ constants_states max f = Err EMaxSteps).
   { unfold constants_states, fp_forward. rewrite Ee. unfold f_block, cfg_block. fold (f_blocks f). rewrite Eb. cbn [bind].
     destruct (fp_budget floc cmap floc_eqb (backward f) (forward f) (c_trans f) c_join cm_cmp false max [] [block_first_loc eb]) as (Ha & Hb0 & [(n & o & Hn & Ht)|(m2 & l & q2 & Hk)]).
-    - rewrite (Ha n o Ht Hn). destruct (term_done_only f Hinv Hsr Hda e eb Ee Eb dm Hsol n o _ _ Ht HX0) as (m' & ->). left. eexists. reflexivity.
+    - rewrite (Ha n o Ht Hn). destruct (term_done_only f Hinv Hsr e eb Ee Eb n o _ _ Ht (XI_init f eb)) as (m' & ->). left. eexists. reflexivity.
     - rewrite (Hb0 m2 l q2 Hk). right. reflexivity. }
   unfold constants_max. destruct Hrun as [(m & Hm)|Hm]; rewrite Hm; cbn [bind]; [|right; reflexivity].
   left. exact (constants_remap_total f max m Hinv Hsr Hm).
@@ -1685,43 +1538,34 @@ Proof.
       destruct (cm_get a k) as [[|c|]|] eqn:Ea; cbn [vrank]; try lia. exfalso. apply cm_get_none in Ea. contradiction.
 Qed.
 
-(* C13 completion at full strength: with a step budget covering the C09 bound for the height
-   3 * |scalars| (per scalar: absent < Bottom < Constant < Top) the analysis returns a result *)
+(* C13 completion: with a step budget covering the C09 bound for the height 3 * |written scalars| the
+   analysis returns a result -- on every function with an entry, in particular on every function in
+   which no scalar can be read before it is assigned *)
 Theorem constants_completes f max :
-  cfg_inv (f_cfg f) = true -> c13_wf f = true -> def_assigned f = true ->
-  (1 + out_degree f * (length (locations f) * Datatypes.S (3 * length (all_scalars f))) <= Datatypes.S max)%nat ->
+  cfg_inv (f_cfg f) = true -> c13_wf f = true -> entry_loc f <> None ->
+  (1 + out_degree f * (length (locations f) * Datatypes.S (3 * length (wkeys f))) <= Datatypes.S max)%nat ->
   exists r, constants_max max f = Ok r.
 Proof.
-  intros Hinv Hwf Hda Hbud. pose proof (Hsrc f Hwf) as Hsr.
-  destruct (g_entry (f_cfg f)) as [e|] eqn:Ee.
-  2:{ unfold def_assigned, entry_loc in Hda. rewrite Ee in Hda. discriminate. }
-  destruct (find_block (f_blocks f) e) as [eb|] eqn:Eb.
-  2:{ unfold def_assigned, entry_loc in Hda. rewrite Ee, Eb in Hda. discriminate. }
-  destruct (da_solution f) as [dm|] eqn:Hsol.
-  2:{ unfold def_assigned, entry_loc in Hda. rewrite Ee, Eb, Hsol in Hda. discriminate. }
+  intros Hinv Hwf Hent Hbud. pose proof (Hsrc f Hwf) as Hsr. unfold entry_loc in Hent.
+  destruct (g_entry (f_cfg f)) as [e|] eqn:Ee; [|contradiction].
+  destruct (find_block (f_blocks f) e) as [eb|] eqn:Eb; [|contradiction].
   pose proof (proj1 (find_block_some _ _ _ Eb)) as Hin.
+  pose proof (from_function_of f e eb Ee Eb) as Hff.
   assert (Hlocs : forall l, reachL f (block_first_loc eb) l -> In l (locations f)).
   { intros l Hr. apply (locations_valid f l Hinv). exact (reach_valid f Hinv eb Hin l Hr). }
-  assert (HX0 : XI f eb dm [] [block_first_loc eb]).
-  { refine (conj (Rch_init _ _ _ _ _) (conj (Fed_init _ _ _ _ _) (conj (Inv_init _ _ _ _ _ _ _ _ _) (conj _ (conj _ (conj _ (conj _ _))))))).
-    - intros l s Hl. discriminate Hl.
-    - intros l Hl. exfalso. apply Hl. reflexivity.
-    - intros l s Hl. discriminate Hl.
-    - intros l s Hl. discriminate Hl.
-    - constructor. }
   destruct (fp_terminates_rel floc cmap floc_eqb floc_eqb_reflect (backward f) (forward f) (c_trans f) c_join cm_cmp
               (il_succ f) (il_pred f) (block_first_loc eb)
               (il_from_ok f Hinv eb Hin) (il_to_ok f Hinv eb Hin) (il_converse f Hinv eb Hin) (good f))
-    with (rank := crank (all_scalars f)) (h := (3 * length (all_scalars f))%nat) (U := locations f) (d := out_degree f)
+    with (rank := crank (wkeys f)) (h := (3 * length (wkeys f))%nat) (U := locations f) (d := out_degree f)
     as (n & o & Hn & Ht).
-  - intros l st a Hr _ Hst Hta. apply (good_trans f Hsr l st a (Hlocs l Hr) Hst Hta).
+  - intros l st a Hr _ Hst Hta. exact (good_trans f Hsr (block_first_loc eb) l st a Hff Hst Hta).
   - intros a b j Ha Hb0 [= <-]. apply good_join; assumption.
   - intros s _. apply crank_le.
-  - intros a b (A1 & A2 & _) (B1 & _ & _) Hc. apply crank_gt; assumption.
+  - intros a b (A1 & A2 & _) (B1 & _ & _) Hc. apply crank_gt; [exact A1|exact B1|intros k Hk; apply A2; exact Hk|exact Hc].
   - apply (locations_nodup f Hinv).
   - exact Hlocs.
   - intros l Hr. unfold out_degree. apply list_max_in. apply in_map_iff. exists l. split; [reflexivity|exact (Hlocs l Hr)].
-  - destruct (term_done_only f Hinv Hsr Hda e eb Ee Eb dm Hsol n o _ _ Ht HX0) as (m & ->).
+  - destruct (term_done_only f Hinv Hsr e eb Ee Eb n o _ _ Ht (XI_init f eb)) as (m & ->).
     destruct (fp_budget floc cmap floc_eqb (backward f) (forward f) (c_trans f) c_join cm_cmp false max [] [block_first_loc eb]) as (Ha & _ & _).
     assert (Hm : constants_states max f = Ok m).
     { unfold constants_states, fp_forward. rewrite Ee. unfold f_block, cfg_block. fold (f_blocks f). rewrite Eb. cbn [bind].
